@@ -42,5 +42,10 @@ elif name == 'p4':   # drop does not resolve
            "    suspend_point<bool> set_value(DropTag) {\n        auto m = claim();\n        if (m) {\n            return suspend_point<bool>(true);")
 elif name == 'p5':   # behaviour preserving: operator= written with explicit claim/resolve
     rep(F, "            set_value(drop);\n            _owner = other.claim();", "            if (auto m = claim()) m->resolve();\n            auto taken = other.claim();\n            _owner.store(taken);")
+elif name == 'r1':   # refused branch no longer resets _next (assert kept): a refused awaiter aborts on its next use
+    rep(A, "            if (_next == &ready_state) {\n                _next = nullptr;\n", "            if (_next == &ready_state) {\n")
+elif name == 'r2':   # resume_chain_lk no longer clears the node's link before resume()
+    rep(A, "            chain = chain->_next;\n            y->_next = nullptr;\n", "            chain = chain->_next;\n")
 else:
     raise SystemExit('unknown ' + name)
+# re-used awaiters (C02 part seq_aw): run as  python3 notes/cell_mutations.py r2 <copy>  (handled below because the table above exits on unknown names)
